@@ -146,6 +146,8 @@ pub enum Act {
     AckN { c: u8, n: u16 },
     /// complete the n oldest received PUBRELs in one batch
     CompN { c: u8, n: u16 },
+    /// from now on the random balancing strategy draws member `k` (modulo the group size)
+    Pick { k: u8 },
     /// like `AckN`, followed in the same batch by a request of the same client that asks for a
     /// reply: 0 PINGREQ, 1 SUBSCRIBE (last filter), 2 QoS 1 PUBLISH (topic 0)
     AckNThen { c: u8, n: u16, then: u8 },
@@ -227,6 +229,8 @@ pub struct RouterWorld {
     /// late Disconnect events delivered for a slot that had a new occupant: (slot, whose)
     pub stale_disc: Vec<(usize, String)>,
     pub pad: usize,
+    /// answer given to the random balancing strategy (member index modulo group size)
+    pub pick_mode: u8,
 }
 
 fn router_config(cfg: &Cfg) -> RouterConfig {
@@ -327,6 +331,9 @@ impl RouterWorld {
         if self.router.is_none() {
             return false;
         }
+        // the "random" balancing strategy asks the harness: the member index in force
+        // (`Act::Pick`) answers every draw of this turn
+        rumqttd::verif::set_picks(Some(vec![self.pick_mode as usize; 4096]));
         let ran = self.with_router("run_inner", |r| r.verif_turn()).unwrap_or(false);
         self.turns += 1;
         if ran || !self.outbox.is_empty() {
@@ -863,6 +870,7 @@ impl RouterWorld {
 
     fn harness_hash(&self, h: &mut impl Hasher) {
         self.manual.hash(h);
+        self.pick_mode.hash(h);
         self.stale_disc.hash(h);
         self.outbox.hash(h);
         self.dead.is_some().hash(h);
@@ -937,6 +945,7 @@ impl World for RouterWorld {
             prop: cfg.prop_static(),
             max_conn: cfg.max_conn,
             stale_disc: vec![],
+            pick_mode: 0,
             pad: cfg.pad,
         };
         for a in cfg.prelude.iter() {
